@@ -86,6 +86,7 @@ struct View {
     guard: bool,
     last: u64,
     in_stale: bool,
+    in_corrupt: bool,
 }
 struct Ctl {
     mu: Mutex<Vec<View>>,
@@ -215,7 +216,9 @@ impl Actor {
         r
     }
     fn corrupt(&mut self) -> bool {
+        self.ctl.set(self.id, |v| v.in_corrupt = true);
         let r = ripd::try_cleanup_corrupt_lock_file(&self.data).unwrap_or(false);
+        self.ctl.set(self.id, |v| v.in_corrupt = false);
         self.note(r as u64);
         r
     }
@@ -391,6 +394,8 @@ fn pc_code(v: &View) -> u64 {
             "auth.read_meta" => {
                 if v.in_stale {
                     16
+                } else if v.in_corrupt {
+                    22
                 } else {
                     8
                 }
@@ -403,7 +408,13 @@ fn pc_code(v: &View) -> u64 {
                 }
             }
             "drv.lock_exists" => 10,
-            "auth.liveness" => 11,
+            "auth.liveness" => {
+                if v.in_corrupt {
+                    23
+                } else {
+                    11
+                }
+            }
             "drv.ping" => 12,
             "auth.stale.before_exists" => 13,
             "auth.stale.before_rename" => 15,
@@ -728,6 +739,7 @@ fn leftovers() -> Vec<(&'static str, LockF, MetaF, Option<u64>)> {
         ("dead_half", LockF::Half(DEAD), MetaF::Absent, None),
         ("dead_meta_only", LockF::Absent, MetaF::Rec(DEAD), None),
         ("dead_lock_other_meta", LockF::Rec(DEAD), MetaF::Rec(DEAD2), None),
+        ("dead_half_dead_meta", LockF::Half(DEAD), MetaF::Rec(DEAD2), None),
         ("live_lock_meta", LockF::Rec(BYST), MetaF::Rec(BYST), Some(BYST)),
         ("live_lock", LockF::Rec(BYST), MetaF::Absent, Some(BYST)),
     ]
@@ -993,6 +1005,59 @@ fn main() {
         let mut pol = random_policy(&mut r2, crash);
         let o = run_case(&c, &mut pol, 70);
         record(&mut res, &mut w, "random", &c, o, false);
+    }
+    // 6. recovery oracle ("a store whose previous authority crashed becomes usable again"): from every all-dead
+    //    leftover state a server loop scheduled alone (a second contender idle) must end up serving with its own
+    //    lock.json and meta.json; a client loop scheduled alone must reach its "no meta: lock exists? else spawn"
+    //    branch (or find a reachable endpoint)
+    for lock in [LockF::Absent, LockF::Half(DEAD), LockF::Rec(DEAD)] {
+        for meta in [MetaF::Absent, MetaF::Rec(DEAD), MetaF::Rec(DEAD2)] {
+            for idle in [false, true] {
+                let mut cont = vec![Contender { pid: 101, drv: Drv::Server }];
+                if idle {
+                    cont.push(Contender { pid: 102, drv: Drv::Server });
+                }
+                let c = Case { lock: lock.clone(), meta: meta.clone(), bystander: None, cont, assume_grace: true, real_pids: false };
+                let mut pol = |_p: usize, _st: &[usize], pcs: &[u64]| if pcs[0] == 21 || pcs[0] == 0 { None } else { Some(Ev::Step(0, 2)) };
+                let o = run_case(&c, &mut pol, 40);
+                let n = c.cont.len();
+                let fin: Vec<u64> = o.obs[o.obs.len() - (3 + 4 * n)..].to_vec();
+                let recovered = fin[0] == 2 + 101 && fin[1] == 2 + 101 && fin[3] == 21 && fin[4] == 1;
+                let (events, steps) = (o.events.clone(), o.events.len());
+                record(&mut res, &mut w, "recover_solo_server", &c, o, false);
+                res.oracle_checks += 1;
+                if !recovered {
+                    let class = if fin[0] == 1 && fin[1] != 0 { "wedged_half_written_lock_next_to_meta_json" } else { "dead_leftover_not_recovered_by_solo_server" };
+                    res.bump(&format!("finding={class}"));
+                    res.oracle_violations.push(OracleViolation {
+                        case_id: res.evaluations as i64 - 1,
+                        what: format!("a server loop running alone for {steps} steps (endpoint unreachable, 1 s timer elapsed, deadline not passed) from the all-dead leftover lock={:?} meta={:?} did not become the authority: final lock code {} meta code {} pc {} guard {}", c.lock, c.meta, fin[0], fin[1], fin[3], fin[4]),
+                        class: class.into(),
+                        replay: case_json(&c, &events[..events.len().min(14)]),
+                    });
+                }
+            }
+        }
+    }
+    for meta in [MetaF::Rec(DEAD), MetaF::Rec(DEAD2)] {
+        let c = Case { lock: LockF::Absent, meta: meta.clone(), bystander: None, cont: vec![Contender { pid: 101, drv: Drv::Client }], assume_grace: true, real_pids: false };
+        let mut pol = |_p: usize, _st: &[usize], _pcs: &[u64]| Some(Ev::Step(0, 0));
+        let o = run_case(&c, &mut pol, 40);
+        let reached_spawn_branch = o.pcs_seen.contains(&10);
+        let finished = o.events.len() < 40;
+        let events = o.events.clone();
+        record(&mut res, &mut w, "recover_solo_client", &c, o, false);
+        res.oracle_checks += 1;
+        if !reached_spawn_branch && !finished {
+            let class = "client_never_spawns_meta_json_of_dead_pid_without_lock";
+            res.bump(&format!("finding={class}"));
+            res.oracle_violations.push(OracleViolation {
+                case_id: res.evaluations as i64 - 1,
+                what: format!("a client loop running alone for 40 steps from lock=Absent meta={:?} (pid dead, endpoint unreachable) cycles read-meta / ping / liveness / stale-cleanup(false: no lock) and never reaches the branch that spawns an authority", c.meta),
+                class: class.into(),
+                replay: case_json(&c, &events[..8]),
+            });
+        }
     }
     rip_kernel::verif::set_hook(None);
     w.flush();
